@@ -57,7 +57,9 @@ func init() {
 			for i := range h.Ops {
 				switch h.Ops[i].Kind {
 				case "reopen":
-					h.Ops[i].Ref = 1 + w.Choose(4)*977 // gap in ms above one second
+					// gap in ms on top of the base; -1000 = the restart takes no simulated time at all
+					// (ids must stay unique even then: they must not depend on per-Store state)
+					h.Ops[i].Ref = []int{1, 978, 1955, 2932, -1000, -1000}[w.Choose(6)]
 				case "retention":
 					h.Ops[i].Ref = []int{1, 60, 600, 3600, 7200, 30000, 90000}[w.Choose(7)] // period in seconds
 				}
